@@ -292,4 +292,213 @@ theorem eval_plain_good (dot : DotCtx) (e : E) (h : PlainE e) : Good (evalAst do
       left; exact ⟨ts, by rw [ht]; rfl⟩
     · rw [hw]; right; exact ⟨w, rfl⟩
 
+
+/-- no operator occurring in the tree is disabled -/
+def noDis : Ast → Bool
+  | .leaf _ => true
+  | .node o args => !o.disabled && allND args
+where
+  allND : List Ast → Bool
+    | [] => true
+    | a :: as => noDis a && allND as
+
+theorem allND_iff (l : List Ast) : noDis.allND l = true ↔ ∀ a ∈ l, noDis a = true := by
+  induction l with
+  | nil => simp [noDis.allND]
+  | cons a as ih => simp [noDis.allND, ih]
+
+def OutOk (out : List Ast) : Prop := ∀ a ∈ out, noDis a = true
+def StackOk (stk : List SEntry) : Prop := ∀ e ∈ stk, ∀ o i, e = .op o i → o.disabled = false
+
+theorem operate_ok (o : OpSpec) (i : Nat) (out out' : List Ast) (ho : o.disabled = false) (h : OutOk out)
+    (hr : operate o i out = .ok out') : OutOk out' := by
+  unfold operate at hr
+  split at hr
+  split at hr
+  · cases hr
+  · rename_i lo hi neg _ _
+    injection hr with hr
+    subst hr
+    intro a ha
+    simp only [List.mem_append, List.mem_cons, List.mem_nil_iff, or_false] at ha
+    rcases ha with (ha | ha) | ha
+    · exact h a (List.mem_of_mem_take ha)
+    · subst ha
+      simp only [noDis, ho, Bool.not_false, Bool.true_and]
+      rw [allND_iff]
+      intro b hb
+      exact h b (List.mem_of_mem_drop (List.mem_of_mem_take hb))
+    · exact h a (List.mem_of_mem_drop ha)
+
+theorem popWhile_ok (c : OpSpec) : ∀ (stk : List SEntry) (out : List Ast) (s' : ShState),
+    OutOk out → StackOk stk → popWhile c out stk = .ok s' → OutOk s'.out ∧ StackOk s'.stack := by
+  intro stk
+  induction stk with
+  | nil => intro out s' h1 h2 h; simp [popWhile] at h; subst h; exact ⟨h1, h2⟩
+  | cons en stk ih =>
+    intro out s' h1 h2 h
+    cases en with
+    | ctx ch i => simp [popWhile] at h; subst h; exact ⟨h1, h2⟩
+    | op o i =>
+      unfold popWhile at h
+      split at h
+      · cases ho : operate o i out with
+        | error e => rw [ho] at h; cases h
+        | ok out' =>
+          rw [ho] at h
+          have hod := h2 (.op o i) (by simp) o i rfl
+          exact ih out' s' (operate_ok o i out out' hod h1 ho) (fun e he => h2 e (by simp [he])) h
+      · injection h with h; subst h; exact ⟨h1, h2⟩
+
+theorem tryCands_ok (cs : List OpSpec) : ∀ (s s' : ShState),
+    OutOk s.out → StackOk s.stack → tryCands cs s = .ok s' → OutOk s'.out ∧ StackOk s'.stack := by
+  induction cs with
+  | nil => intro s s' _ _ h; simp [tryCands] at h
+  | cons c cs ih =>
+    intro s s' h1 h2 h
+    unfold tryCands at h
+    split at h
+    · exact ih s s' h1 h2 h
+    · by_cases hd : c.disabled = true
+      · simp only [hd, if_true] at h; exact ih s s' h1 h2 h
+      · have hd' : c.disabled = false := by simpa using hd
+        simp only [hd', Bool.false_eq_true, if_false] at h
+        cases hp : popWhile c s.out s.stack with
+        | error e => rw [hp] at h; cases h
+        | ok s1 =>
+          rw [hp] at h
+          obtain ⟨k1, k2⟩ := popWhile_ok c s.stack s.out s1 h1 h2 hp
+          simp only at h
+          have hpush : StackOk (SEntry.op c s1.out.length :: s1.stack) := by
+            intro e he o i heq
+            rcases List.mem_cons.mp he with rfl | he
+            · injection heq with h1' _; subst h1'; exact hd'
+            · exact k2 e he o i heq
+          split at h <;> (try split at h) <;>
+            first
+            | (injection h with h; subst h; exact ⟨k1, hpush⟩)
+            | exact ih s1 s' k1 k2 h
+
+theorem closeCtx_ok (op : Char) : ∀ (stk : List SEntry) (out : List Ast) (s' : ShState),
+    OutOk out → StackOk stk → closeCtx op out stk = .ok s' → OutOk s'.out ∧ StackOk s'.stack := by
+  intro stk
+  induction stk with
+  | nil => intro out s' _ _ h; simp [closeCtx] at h
+  | cons en stk ih =>
+    intro out s' h1 h2 h
+    cases en with
+    | ctx ch i =>
+      unfold closeCtx at h
+      split at h
+      · injection h with h; subst h; exact ⟨h1, fun e he => h2 e (by simp [he])⟩
+      · cases h
+    | op o i =>
+      unfold closeCtx at h
+      cases ho : operate o i out with
+      | error e => rw [ho] at h; cases h
+      | ok out' =>
+        rw [ho] at h
+        have hod := h2 (.op o i) (by simp) o i rfl
+        exact ih out' s' (operate_ok o i out out' hod h1 ho) (fun e he => h2 e (by simp [he])) h
+
+theorem runCands_ok (gs : List (List OpSpec)) : ∀ (s s' : ShState),
+    OutOk s.out → StackOk s.stack → runCands gs s = .ok s' → OutOk s'.out ∧ StackOk s'.stack := by
+  induction gs with
+  | nil => intro s s' h1 h2 h; simp [runCands] at h; subst h; exact ⟨h1, h2⟩
+  | cons g gs ih =>
+    intro s s' h1 h2 h
+    unfold runCands at h
+    cases ht : tryCands g s with
+    | error e => rw [ht] at h; cases h
+    | ok s1 =>
+      rw [ht] at h
+      obtain ⟨k1, k2⟩ := tryCands_ok g s s1 h1 h2 ht
+      exact ih s1 s' k1 k2 h
+
+theorem shuntStep_ok (tab : OpTable) (s s' : ShState) (t : Tok)
+    (h1 : OutOk s.out) (h2 : StackOk s.stack) (h : shuntStep tab s t = .ok s') :
+    OutOk s'.out ∧ StackOk s'.stack := by
+  have hctx : ∀ c n, StackOk (SEntry.ctx c n :: s.stack) := by
+    intro c n e he o i heq
+    rcases List.mem_cons.mp he with rfl | he
+    · cases heq
+    · exact h2 e he o i heq
+  unfold shuntStep at h
+  split at h
+  · split at h
+    · injection h with h; subst h; exact ⟨h1, hctx _ _⟩
+    · split at h
+      · injection h with h; subst h; exact ⟨h1, hctx _ _⟩
+      · split at h
+        · exact closeCtx_ok _ _ _ _ h1 h2 h
+        · split at h
+          · exact closeCtx_ok _ _ _ _ h1 h2 h
+          · cases h
+  · cases hr : resolveToken tab t.text with
+    | error e => rw [hr] at h; cases h
+    | ok gs => rw [hr] at h; exact runCands_ok gs s s' h1 h2 h
+  · injection h with h; subst h
+    refine ⟨?_, h2⟩
+    intro a ha
+    simp only [List.mem_append, List.mem_cons, List.mem_nil_iff, or_false] at ha
+    rcases ha with ha | ha
+    · exact h1 a ha
+    · subst ha; rfl
+
+theorem shuntRun_ok (tab : OpTable) (ts : List Tok) : ∀ (s s' : ShState),
+    OutOk s.out → StackOk s.stack → shuntRun tab ts s = .ok s' → OutOk s'.out ∧ StackOk s'.stack := by
+  induction ts with
+  | nil => intro s s' h1 h2 h; simp [shuntRun] at h; subst h; exact ⟨h1, h2⟩
+  | cons t ts ih =>
+    intro s s' h1 h2 h
+    unfold shuntRun at h
+    cases hs : shuntStep tab s t with
+    | error e => rw [hs] at h; cases h
+    | ok s1 =>
+      rw [hs] at h
+      obtain ⟨k1, k2⟩ := shuntStep_ok tab s s1 t h1 h2 hs
+      exact ih s1 s' k1 k2 h
+
+theorem finish_ok : ∀ (stk : List SEntry) (out out' : List Ast),
+    OutOk out → StackOk stk → finish out stk = .ok out' → OutOk out' := by
+  intro stk
+  induction stk with
+  | nil => intro out out' h1 _ h; simp [finish] at h; subst h; exact h1
+  | cons en stk ih =>
+    intro out out' h1 h2 h
+    cases en with
+    | ctx ch i => simp [finish] at h
+    | op o i =>
+      unfold finish at h
+      cases ho : operate o i out with
+      | error e => rw [ho] at h; cases h
+      | ok o1 =>
+        rw [ho] at h
+        have hod := h2 (.op o i) (by simp) o i rfl
+        exact ih o1 out' (operate_ok o i out o1 hod h1 ho) (fun e he => h2 e (by simp [he])) h
+
+/-- an operator disabled by the parser configuration never appears in a syntax tree the
+shunting-yard returns: for every token list and every operator table -/
+theorem disabled_never_used (tab : OpTable) (ts : List Tok) (a : Ast)
+    (h : tokensToAst tab ts = .ok (some a)) : noDis a = true := by
+  unfold tokensToAst at h
+  cases hr : shuntRun tab ts {} with
+  | error e => rw [hr] at h; cases h
+  | ok s =>
+    rw [hr] at h
+    simp only at h
+    obtain ⟨k1, k2⟩ := shuntRun_ok tab ts {} s (by intro a ha; cases ha) (by intro e he; cases he) hr
+    cases hf : finish s.out s.stack with
+    | error e => rw [hf] at h; cases h
+    | ok l =>
+      rw [hf] at h
+      have hl := finish_ok s.stack s.out l k1 k2 hf
+      match l, h, hl with
+      | [b], h, hl =>
+        simp only at h
+        injection h with h; injection h with h; subst h
+        exact hl _ (by simp)
+      | [], h, _ => cases h
+      | _ :: _ :: _, h, _ => cases h
+
 end FormulaicVerif.Proofs.C14
